@@ -49,8 +49,10 @@ def _normal_params(rng):
     return mu_pos, mu_neg, sp, sn
 
 
-def _rate(rng):
+def _rate(rng, tiny=False):
     r = rng.random()
+    if tiny and r < 0.12:   # far tails (NormalDataset only: from_metrics turns a rate into a sample size ~ 1/rate)
+        return _dbl(rng.choice([1e-12, 1e-15, 1e-20, 1e-30, 1 - 1e-12]))
     if r < 0.15:
         return _dbl(rng.choice([1e-9, 1 - 1e-9, 1e-4, 0.5, 0.999]))
     if r < 0.5:
@@ -78,7 +80,7 @@ def gen_cases(rng, tier):
         eff_neg = -mu_pos if mu_neg is None else mu_neg
         thr = [_dbl(rng.choice([mu_pos, eff_neg]) + rng.choice([sp, sn]) * Fraction(rng.randint(-16, 16), 4)) for _ in range(rng.randint(1, 3))]
         cases.append({"kind": "normal", "mu_pos": enc(mu_pos), "mu_neg": enc(mu_neg), "sp": enc(sp), "sn": enc(sn),
-                      "sc": rng.choice(["pos", "neg"]), "rates": [enc(_rate(rng)) for _ in range(rng.randint(1, 3))],
+                      "sc": rng.choice(["pos", "neg"]), "rates": [enc(_rate(rng, tiny=True)) for _ in range(rng.randint(1, 3))],
                       "thr": [enc(t) for t in thr], "scalar": rng.random() < 0.3,
                       "roc": rng.choice(["fnr", "fnr", "fpr", "fpr", "none", "both"])})
     for k in range(m):  # from_metrics
@@ -354,6 +356,9 @@ def _corr_exact_floats(case):
     return all(_is_double(v) for v in vals)
 
 
+TINY = Fraction(1, 10 ** 300)   # rates are compared relatively (1e-9): small rates are the ones people ask of a ROC curve
+
+
 def _close(a, b, rel=Fraction(1, 10 ** 9), ab=Fraction(1, 10 ** 12)):
     return abs(a - b) <= ab + rel * max(abs(a), abs(b))
 
@@ -374,10 +379,10 @@ def oracle(case, res):
         if case["mu_neg"] is None and F(r["mu_neg"]) != -F(case["mu_pos"]):
             fails.append(("C20/normal/post_init", "mu_neg does not default to -mu_pos"))
         for x, back in zip(rates, r["fnr_back"]):
-            if back is None or not _close(F(back), x):
+            if back is None or not _close(F(back), x, ab=TINY):
                 fails.append(("C20/normal/inverse/fnr", f"fnr(threshold_at_fnr({float(x)})) = {back and float(F(back))}"))
         for x, back in zip(rates, r["fpr_back"]):
-            if back is None or not _close(F(back), x):
+            if back is None or not _close(F(back), x, ab=TINY):
                 fails.append(("C20/normal/inverse/fpr", f"fpr(threshold_at_fpr({float(x)})) = {back and float(F(back))}"))
         # the other direction is ill-conditioned in the tails: thresholds are within 4 sigma, tolerance 1e-6 sigma
         mu_p, mu_n = F(case["mu_pos"]), F(r["mu_neg"])
@@ -400,7 +405,7 @@ def oracle(case, res):
                 fails.append(("C20/normal/roc/thresholds", "roc() thresholds are not the thresholds at the requested rates"))
             req = roc["fnr"] if case["roc"] == "fnr" else roc["fpr"]
             for x, got in zip(rates, req):
-                if got is None or not _close(F(got), x):
+                if got is None or not _close(F(got), x, ab=TINY):
                     fails.append(("C20/normal/roc/operating-point", f"requested rate {float(x)}, curve has {got and float(F(got))}"))
     elif kind == "fm":
         fnr, fpr = F(case["fnr"]), F(case["fpr"])
